@@ -865,7 +865,7 @@ def run(ctx):
         'tools/gen_utils.py (array-bookkeeping dialect for pymoto/utils.py) and the numpy dtype semantics embodied in Model/MMAvars.v (promotion table validated by check C10)',
         'np.linalg.norm is patched from outside during the runs only to record its results (borderline filter)']
     vlib.audit(ctx)
-    if not vlib.ensure_static(ctx):
+    if not vlib.ensure_static(ctx, ['theories/Props/C17.vo', 'theories/Props/C17b.vo']):
         return
     # ---- (T)
     gen_ok, err = True, ''
@@ -900,6 +900,7 @@ def run(ctx):
                       '(result float64 whatever the dtypes of the entries) and Model/Concat.v', 'translator/bridge', dict(error=err2[-3000:]),
                       theorem='BridgeC17.UtilsBridge.gen_concat_dtype_float64')
     vlib.check_props(ctx)
+    vlib.check_props(ctx, 'theories/Props/C17b.v')     # explicit volume-gap bound of one OC step (xmin >= 0)
 
     rng = np.random.default_rng(ctx.seed)
     problems = []
